@@ -493,6 +493,18 @@ class World:
         built dict for every call (results must not depend on dict identity or on what an
         earlier call saw in a dict with the same id)."""
         p = self.paramsets[qi]
+        if self.spec.get("permute_calls_seed") is not None and len(p["phase_assemblage"]) > 1:
+            # the driver reverses the phase list and the fraction list of this dict together,
+            # in place, before a seeded subset of the calls (same composition, other order)
+            if not hasattr(self, "_perm_rng"):
+                import random as _random
+                self._perm_rng = _random.Random(int(self.spec["permute_calls_seed"]))
+                self._perm_state = {}
+            if self._perm_rng.random() < 0.5:
+                p["phase_assemblage"] = p["phase_assemblage"][::-1]
+                p["phase_fractions"] = p["phase_fractions"][::-1]
+                self._perm_state[qi] = not self._perm_state.get(qi, False)
+                self.perm_flips = getattr(self, "perm_flips", 0) + 1
         if self.spec.get("fresh_params_per_call"):
             q = dict(p)
             q["phase_assemblage"] = type(p["phase_assemblage"])(p["phase_assemblage"])
@@ -505,6 +517,8 @@ class World:
         between calls (composition changing along a pathline)."""
         p = self.paramsets[op["params"]]
         fr = [float(x) for x in op["fractions"]]
+        if getattr(self, "_perm_state", {}).get(op["params"], False):
+            fr = fr[::-1]
         p["phase_fractions"] = type(p["phase_fractions"])(fr)
         return {"i": i, "op": "set_fractions", "params": op["params"], "status": "ok", "exc": None,
                 "fault": None}
